@@ -6,20 +6,14 @@
    [impl = spec ; model ideal = spec ; impl = model c for every candidate c]. *)
 From TL Require Import Lib.Base Lib.GenTypes Model.CollectStr Model.Glob Gen.CollectGen Model.Collect Model.CollectSpec.
 
-(* the vector q with flag i switched ON: the former defect i on top of the current code *)
+(* the vector q with flag i toggled: a former defect switched on, or a still-listed one switched off *)
 Definition with_flag (i : nat) (q : cquirks) : cquirks :=
-  match i with
-  | 0 => Build_cquirks true (q_excl_filename q) (q_dirpat_prefix q) (q_dirpat_filename q) (q_doublestar_needs_dir q) (q_ti_shadows_config q) (q_json_ignore_unused q)
-  | 1 => Build_cquirks (q_excl_above_root q) true (q_dirpat_prefix q) (q_dirpat_filename q) (q_doublestar_needs_dir q) (q_ti_shadows_config q) (q_json_ignore_unused q)
-  | 2 => Build_cquirks (q_excl_above_root q) (q_excl_filename q) true (q_dirpat_filename q) (q_doublestar_needs_dir q) (q_ti_shadows_config q) (q_json_ignore_unused q)
-  | 3 => Build_cquirks (q_excl_above_root q) (q_excl_filename q) (q_dirpat_prefix q) true (q_doublestar_needs_dir q) (q_ti_shadows_config q) (q_json_ignore_unused q)
-  | 4 => Build_cquirks (q_excl_above_root q) (q_excl_filename q) (q_dirpat_prefix q) (q_dirpat_filename q) true (q_ti_shadows_config q) (q_json_ignore_unused q)
-  | 5 => Build_cquirks (q_excl_above_root q) (q_excl_filename q) (q_dirpat_prefix q) (q_dirpat_filename q) (q_doublestar_needs_dir q) true (q_json_ignore_unused q)
-  | _ => Build_cquirks (q_excl_above_root q) (q_excl_filename q) (q_dirpat_prefix q) (q_dirpat_filename q) (q_doublestar_needs_dir q) (q_ti_shadows_config q) true
-  end.
+  let f (k : nat) (b : bool) := if Nat.eqb i k then negb b else b in
+  Build_cquirks (f 0 (q_excl_above_root q)) (f 1 (q_excl_filename q)) (f 2 (q_dirpat_prefix q)) (f 3 (q_dirpat_filename q))
+                (f 4 (q_doublestar_needs_dir q)) (f 5 (q_ti_shadows_config q)) (f 6 (q_json_ignore_unused q)) (f 7 (q_ignore_cwd_spelling q)).
 
-(* candidates: the claimed vector, the claimed vector with one former defect switched on, the ideal *)
-Definition candidates (q : cquirks) : list cquirks := q :: map (fun i => with_flag i q) [0;1;2;3;4;5;6] ++ [ideal].
+(* candidates: the claimed vector, the claimed vector with one flag toggled, the ideal *)
+Definition candidates (q : cquirks) : list cquirks := q :: map (fun i => with_flag i q) [0;1;2;3;4;5;6;7] ++ [ideal].
 
 (* the directory at rel inside t *)
 Fixpoint subtree (fuel : nat) (t : tree) (rel : list string) : option tree :=
@@ -42,21 +36,29 @@ Definition same_set (a b : list string) : bool := subset a b && subset b a.
 Inductive obs :=
 | ODir (recursive : bool) (rel : list string) (impl : list string)
 | ODirPar (recursive : bool) (rel : list string) (impl : list string)     (* through lint_directory_parallel / --parallel *)
-| OFiles (ps : list (list string)) (impl : list string).
+| OFiles (ps : list (list string)) (impl : list string)
+| OMixed (recursive parallel : bool) (files : list (list string)) (dirs : list (list string)) (impl : list string).   (* one run, several targets *)
+
+Definition dirs_of (t : tree) (dirs : list (list string)) : option (list (list string * tree)) :=
+  fold_right (fun rel acc => match subtree 64 t rel, acc with Some d, Some l => Some ((rel, d) :: l) | _, _ => None end) (Some []) dirs.
 
 Definition out (l : list (list string)) : list string := map pjoin l.
 
-Definition model_out (q : cquirks) (abs : list string) (t : tree) (S : tsources) (o : obs) : list string :=
+Definition model_out (q : cquirks) (abs : list string) (sp : spelling) (t : tree) (S : tsources) (o : obs) : list string :=
   match o with
   | ODir r rel _ => match subtree 64 t rel with
-                    | Some d => out (run_dir q r abs rel d (render_sources S))
+                    | Some d => out (run_dir q r abs sp rel d (render_sources S))
                     | None => ["<no such directory>"]
                     end
   | ODirPar r rel _ => match subtree 64 t rel with
-                       | Some d => out (run_dir_par q r abs rel d (render_sources S))
+                       | Some d => out (run_dir_par q r abs sp rel d (render_sources S))
                        | None => ["<no such directory>"]
                        end
-  | OFiles ps _ => out (run_files q abs (render_sources S) ps)
+  | OFiles ps _ => out (run_files q abs sp (render_sources S) ps)
+  | OMixed r par fs ds _ => match dirs_of t ds with
+                            | Some l => out (run_paths q r par abs sp (render_sources S) fs l)
+                            | None => ["<no such directory>"]
+                            end
   end.
 
 Definition spec_out (t : tree) (S : tsources) (o : obs) : list string :=
@@ -67,9 +69,13 @@ Definition spec_out (t : tree) (S : tsources) (o : obs) : list string :=
                     | None => ["<no such directory>"]
                     end
   | OFiles ps _ => out (spec_files S ps)
+  | OMixed r _ fs ds _ => match dirs_of t ds with
+                          | Some l => out (spec_paths r S fs l)
+                          | None => ["<no such directory>"]
+                          end
   end.
 
-Definition impl_out (o : obs) : list string := match o with ODir _ _ i | ODirPar _ _ i => i | OFiles _ i => i end.
+Definition impl_out (o : obs) : list string := match o with ODir _ _ i | ODirPar _ _ i => i | OFiles _ i => i | OMixed _ _ _ _ i => i end.
 
 (* the domain hypotheses of the theorems, checked on the generated input *)
 Definition in_domain (t : tree) (S : tsources) (o : obs) : bool :=
@@ -77,15 +83,17 @@ Definition in_domain (t : tree) (S : tsources) (o : obs) : bool :=
   match o with
   | ODir _ rel _ | ODirPar _ rel _ => rel_ok rel && match subtree 64 t rel with Some d => target_ok d | None => false end
   | OFiles ps _ => forallb path_ok ps
+  | OMixed _ _ fs ds _ => forallb path_ok fs
+                          && forallb (fun rel => rel_ok rel && match subtree 64 t rel with Some d => target_ok d | None => false end) ds
   end.
 
-Definition judge (q : cquirks) (abs : list string) (t : tree) (S : tsources) (os : list obs) : list (list bool) :=
+Definition judge (q : cquirks) (abs : list string) (sp : spelling) (t : tree) (S : tsources) (os : list obs) : list (list bool) :=
   map (fun o =>
-         let sp := spec_out t S o in
-         same_set (impl_out o) sp
-         :: same_set (model_out ideal abs t S o) sp
+         let spo := spec_out t S o in
+         same_set (impl_out o) spo
+         :: same_set (model_out ideal abs sp t S o) spo
          :: in_domain t S o
-         :: map (fun c => same_set (impl_out o) (model_out c abs t S o)) (candidates q))
+         :: map (fun c => same_set (impl_out o) (model_out c abs sp t S o)) (candidates q))
       os.
 
 (* leaf level: primitives against CPython *)
